@@ -108,7 +108,7 @@ def main(run):
     traces = []
     graphs = ['same', 'shared', 'mixed', 'plain'] if quick else list(rc.ALL_GRAPHS)
     for g in graphs:
-        for seed in range(run.seed * 100, run.seed * 100 + (1 if quick else 12)):
+        for seed in range(run.seed * 100, run.seed * 100 + (1 if quick else 3)):
             for mode in ('none', 'private', 'shared', 'tworepos'):
                 traces += variant(run, g, seed, mode, quick)
     rc.validate(run, traces, CLAUSES, label='c18.cache-variants')
